@@ -202,3 +202,291 @@ Example C16_example_breaks :
       (do_breaks (ex_chr1 ++ ex_chr2) [ex_seg "chr1" 0 150 0; ex_seg "chr1" 150 900 1; ex_seg "chr2" 0 400 0] 1) =
   [("A", 150, 2, 1)]%string%Z.
 Proof. vm_compute. reflexivity. Qed.
+
+(* ================================================================================================== *)
+(* Deepening: by_gene outside the precondition, the complete report tables, source ties.              *)
+(* ================================================================================================== *)
+From CNV Require Import Base.QNum Model.Reports Model.Chromsort
+  Proofs.GenesGeneral Proofs.GenesFull Proofs.GenesBreaksRows Proofs.GenesSquashRows Proofs.FnReports
+  Gen.FnGenesSegmean Gen.FnGenemetrics.
+From CNV Require Model.Center Model.Sex Model.Descriptives Proofs.DescriptivesBiweight.
+From Coq Require Import Sorting.Permutation Sorting.Sorted.
+
+(* ---- by_gene on ANY table ---------------------------------------------------------------------------- *)
+
+(* The gene map and by_chromosome list their keys in order of first occurrence: the map is exactly
+   every gene name with the positions of its first and last bin. *)
+Theorem C16_gene_map_order : forall rows, gene_map rows = spans_in_order rows.
+Proof. exact gene_map_order. Qed.
+
+Theorem C16_by_chromosome_order : forall rows,
+  by_chromosome rows = map (fun c => (c, chrom_rows c rows)) (chroms_in_order rows).
+Proof. exact by_chromosome_order. Qed.
+
+(* What by_gene does on EVERY table, precondition or not (a gene recurring in two separated stretches
+   of a chromosome or on two chromosomes, comma-joined multi-gene bins, ...).  The table is processed
+   chromosome by chromosome (order of first appearance; a gene on two chromosomes is simply a gene of
+   each).  Within a chromosome, with S = the genes not ignored, each with the positions of its first
+   and last bin, in order of first occurrence:
+   - the yielded groups are the position ranges yielded_ranges: before each gene the non-empty
+     stretch from the end of the PREVIOUS gene of S to the gene's first bin, labelled Antitarget, then
+     the gene's positions first..last; after the last gene the rest of the chromosome;
+   - the gene-labelled groups are exactly the spans of S, in that order; the Antitarget groups are
+     exactly the non-empty (end of a prefix of S, start of the remaining suffix) stretches;
+   - no bin is ever dropped (every position lies in at least one group);
+   - every bin is yielded exactly once IF AND ONLY IF the spans of distinct genes are disjoint:
+     the precondition of C16_partition is exactly what is needed. *)
+Theorem C16_by_gene_general : forall ignore rows,
+  let ign := full_ignore ignore in
+  by_gene ignore rows =
+    flat_map (fun c => by_gene_chrom ign (chrom_rows c rows)) (chroms_in_order rows) /\
+  forall crows,
+    by_gene_chrom ign crows = groups_of_ranges crows (yielded_ranges ign crows) /\
+    (forall g f l, In (g, f, l) (real_spans ign crows) <-> mem_string g ign = false /\ gene_span crows g f l) /\
+    map ge_name (real_spans ign crows) =
+      filter (fun g => negb (mem_string g ign)) (genes_in_order crows) /\
+    filter is_gene_range (yielded_ranges ign crows) = map range_of (real_spans ign crows) /\
+    (forall a b, In ("Antitarget"%string, a, b) (yielded_ranges ign crows) <->
+       (a < b /\ exists pre post, real_spans ign crows = pre ++ post /\
+                                  a = end_of pre /\ b = start_of (length crows) post))%nat /\
+    (forall i, i < length crows -> 1 <= times_yielded (yielded_ranges ign crows) i)%nat /\
+    ((forall i, i < length crows -> times_yielded (yielded_ranges ign crows) i = 1)%nat <->
+     spans_disjoint ign crows).
+Proof. exact by_gene_general. Qed.
+
+(* A bin naming two different genes (comma-joined names) is always yielded at least twice: once in
+   each gene's group -- multi-gene bins are outside the precondition by construction. *)
+Theorem C16_by_gene_general_comma : forall ignore rows i b g g',
+  nth_error rows i = Some b -> In g (genes_of b) -> In g' (genes_of b) -> g <> g' ->
+  mem_string g (full_ignore ignore) = false -> mem_string g' (full_ignore ignore) = false ->
+  (2 <= times_yielded (yielded_ranges (full_ignore ignore) rows) i)%nat.
+Proof. intros ignore. exact (comma_bin_twice (full_ignore ignore)). Qed.
+
+(* Boundary of the precondition, by witness (documentation, not a finding: the property states the
+   precondition).  Gene A recurring after gene B (names A, B, A, C): B's bin is yielded twice (in A's
+   group and its own) and A's last bin is yielded again, labelled Antitarget.  A comma-joined bin
+   "A,B" followed by A and B: the first two bins are yielded twice. *)
+Theorem C16_partition_precondition_needed :
+  let ign := full_ignore IGNORE_GENE_NAMES in
+  (~ spans_disjoint ign wit_split /\
+   map (fun gr => (fst gr, map b_start (snd gr))) (by_gene_chrom ign wit_split) =
+     [("A", [0; 100; 200]); ("B", [100]); ("Antitarget", [200]); ("C", [300])]%string /\
+   map (times_yielded (yielded_ranges ign wit_split)) [0; 1; 2; 3]%nat = [1; 2; 2; 1]%nat) /\
+  (~ spans_disjoint ign wit_comma /\
+   map (fun gr => (fst gr, map b_start (snd gr))) (by_gene_chrom ign wit_comma) =
+     [("A", [0; 100]); ("B", [0; 100; 200])]%string /\
+   map (times_yielded (yielded_ranges ign wit_comma)) [0; 1; 2]%nat = [2; 2; 1]%nat).
+Proof. exact (conj by_gene_split_gene_witness by_gene_comma_witness). Qed.
+
+(* a gene on two chromosomes: one group per chromosome, every bin once *)
+Example C16_example_two_chromosomes :
+  map (fun gr => (fst gr, map (fun b => (b_chr b, b_start b)) (snd gr)))
+      (by_gene IGNORE_GENE_NAMES [ex_bin "chr1" "A" 0; ex_bin "chr1" "A" 1; ex_bin "chr2" "A" 0; ex_bin "chr2" "-" 1]) =
+  [("A", [("chr1", 0); ("chr1", 100)]); ("A", [("chr2", 0)]); ("Antitarget", [("chr2", 100)])]%string.
+Proof. vm_compute. reflexivity. Qed.
+
+(* ---- do_genemetrics end to end ---------------------------------------------------------------------------- *)
+
+(* The X adjustment of the model IS C15's shift_xx (Model/Sex.v, PAR-X bins not shifted when a genome
+   build is given) applied to the converted table ... *)
+Theorem C16_shift_reuses_C15 : forall hd hw hap is_xx build rows,
+  map (to_cbin hd hw) (shift_xx_full hd hw hap is_xx build rows) =
+  Sex.shift_xx hap is_xx build (map (to_cbin hd hw) rows).
+Proof. exact shift_xx_full_reuses. Qed.
+
+(* ... and is: -1 on the X bins for a female sample on a haploid-X reference, +1 for a male (or
+   undeterminable) sample on a diploid-X reference, nothing otherwise; X = "chrX" / "X" after the
+   table's first row; with a genome build the bins inside PAR1 / PAR2 of X are left alone. *)
+Theorem C16_x_adjustment : forall hd hw hap is_xx build rows,
+  shift_xx_full hd hw hap is_xx build rows = x_adjusted hap is_xx build rows.
+Proof. exact shift_xx_full_spec. Qed.
+
+(* The complete output table without segments, for every bin table with the required columns and
+   every option: the sex is is_sample_female or, when None, C15's guess_xx (haploid-X flag and genome
+   build passed on); the bins are X-adjusted; the rows are, chromosome by chromosome (order of first
+   appearance) and gene by gene (order of first occurrence), the named genes whose weighted mean log2
+   over their own bins first..last (low-coverage bins dropped under skip_low) reaches the threshold in
+   absolute value (>=), then those with at least min_probes bins (no filter for min_probes = 0); each
+   row carries the gene, chromosome, start of its first and end of its last bin, that mean, the
+   weight-averaged depth, the summed weight, the bin count.  Columns: gene first, then the bin table's
+   other columns in their order, then probes if the table had none.  No row reaching the threshold:
+   the empty table with columns gene, chromosome, start, end, log2.  A named gene whose weights sum to
+   zero: ZeroDivisionError (None). *)
+Theorem C16_genemetrics_full : forall gstat ccols rows o,
+  has_required ccols ->
+  do_genemetrics_full gstat ccols rows None o =
+  genemetrics_table ccols
+    (x_adjusted (o_hap o) (female_for_bins gstat o rows) (o_build o) rows)
+    (o_threshold o) (o_min_probes o) (o_skip_low o).
+Proof. exact do_genemetrics_full_by_gene. Qed.
+
+(* The complete output table given a non-empty segment table (bins sorted and not nested within each
+   chromosome): the segments are X-adjusted with the same sex (guessed again on the segment table when
+   the bins gave no guess); segment by segment -- chromosomes in order of first appearance, table
+   order within -- for each segment whose |log2| >= threshold, every named gene with bins among the
+   segment's bins (those of its chromosome overlapping it), on the part of the gene inside the segment
+   (first..last of those bins carrying it), with the segment's log2, the segment's weight / probes as
+   segment_weight / segment_probes (when the segment table has them) and the segment's further columns
+   copied; the min_probes filter looks at segment_probes when present, else at the gene's bin count. *)
+Theorem C16_genemetrics_full_segments : forall gstat ccols rows scols segs o,
+  has_required ccols -> segs <> [] ->
+  ~ In "segment_weight"%string (ccols ++ scols) -> ~ In "segment_probes"%string (ccols ++ scols) ->
+  let rows' := x_adjusted (o_hap o) (female_for_bins gstat o rows) (o_build o) rows in
+  let segs' := x_adjusted_segs (o_hap o) (female_for_segs gstat o rows scols (map sg_bin segs)) (o_build o) segs in
+  (forall c, bins_sorted (chrom_rows c rows')) ->
+  do_genemetrics_full gstat ccols rows (Some (scols, segs)) o =
+  genemetrics_table_segments ccols scols rows' segs' (o_threshold o) (o_min_probes o) (o_skip_low o).
+Proof. exact do_genemetrics_full_by_segment. Qed.
+
+(* the rows of the spec are those of C16_genemetrics: the own bins of a gene are its span *)
+Theorem C16_own_bins_are_span : forall rows g f l,
+  gene_span rows g f l -> own_bins g rows = slice rows f (S l).
+Proof. exact own_bins_span. Qed.
+
+(* The basic model of C16_genemetrics / C16_genemetrics_segments is the complete one restricted to:
+   no genome build, sex given, segment table with weight and probes -- same rows, same order. *)
+Theorem C16_full_extends_basic : forall gstat ccols rows th mp sl hap fem,
+  map f_row (min_probes_filter mp (gm_body gstat ccols rows None (basic_opts th mp sl hap fem))) =
+    do_genemetrics rows None th mp sl hap fem /\
+  forall scols segs, segs <> [] -> mem_string "weight" scols = true -> mem_string "probes" scols = true ->
+    map f_row (min_probes_filter mp (gm_body gstat ccols rows (Some (scols, segs)) (basic_opts th mp sl hap fem))) =
+    do_genemetrics rows (Some (map sg_bin segs)) th mp sl hap fem.
+Proof. exact full_extends_basic. Qed.
+
+(* literals of the report code: column names and lists as the property's tables show them *)
+Theorem C16_report_literals :
+  CNA_REQUIRED_COLUMNS = ["chromosome"; "start"; "end"; "gene"; "log2"]%string /\
+  GM_EXTRA_EXCLUDED = ["depth"; "probes"; "weight"]%string /\
+  SQUASH_XFIELDS = ["depth"; "gc"; "rmask"; "spread"; "weight"]%string /\
+  BREAKS_COLUMNS = ["gene"; "chromosome"; "location"; "change"; "probes_left"; "probes_right"]%string /\
+  (COL_GENE, COL_PROBES, COL_WEIGHT, COL_DEPTH, COL_LOG2, COL_END, COL_SEGMENT_WEIGHT, COL_SEGMENT_PROBES) =
+  ("gene", "probes", "weight", "depth", "log2", "end", "segment_weight", "segment_probes")%string /\
+  GENEMETRICS_MIN_PROBES = 3 /\ GENEMETRICS_SKIP_LOW = false /\ BREAKS_MIN_PROBES = 1 /\ SQUASH_ANTITARGET = false /\
+  (GENEMETRICS_THRESHOLD == 3602879701896397 # 18014398509481984)%Q.       (* the float 0.2 *)
+Proof. repeat split. Qed.
+
+(* ---- do_breaks end to end ------------------------------------------------------------------------------------ *)
+
+(* get_gene_intervals: per chromosome, one interval per gene name (whole bin names, not ignored) with
+   bins there -- the sorted starts and the largest end over the gene's OWN bins (a gene interrupted by
+   Antitarget / ignored bins keeps one interval; those bins are not its own) -- whose first entry is
+   the smallest start; listed by position. *)
+Theorem C16_gene_intervals : forall rows c,
+  (forall g starts gend,
+     In (g, starts, gend) (gene_intervals IGNORE_GENE_NAMES rows c) <->
+     ignored_for_breaks g = false /\ gene_bins c g rows <> [] /\
+     starts = gene_starts c g rows /\ gend = gene_max_end c g rows) /\
+  (forall g, hd 0 (gene_starts c g rows) = gene_min_start c g rows) /\
+  gene_intervals IGNORE_GENE_NAMES rows c = map (interval_of c rows) (genes_by_position c rows).
+Proof. exact gene_intervals_full. Qed.
+
+(* The complete ordered result of do_breaks, any table, any min_probes: the raw rows -- boundary by
+   boundary in segment-table order (end of a segment followed by a segment of the same chromosome),
+   gene by gene in position order: the genes whose interval strictly contains the boundary
+   (smallest start < boundary < largest end) and whose own bins number >= min_probes on each side
+   (starts < boundary / starts >= boundary), with the gene, chromosome, boundary, change in log2
+   (next - current), the two counts -- stably sorted by (min(left, right), |change|) descending. *)
+Theorem C16_breaks_rows : forall rows segs min_probes,
+  let raw := breaks_unsorted min_probes rows segs in
+  let out := do_breaks rows segs min_probes in
+  out = stable_sort bkey_ge raw /\
+  Permutation raw out /\
+  StronglySorted break_key_ge out /\
+  (forall z, filter (same_break_key z) out = filter (same_break_key z) raw).
+Proof. exact do_breaks_rows. Qed.
+
+Theorem C16_breaks_table : forall rows segs min_probes,
+  do_breaks_table rows segs min_probes =
+  (["gene"; "chromosome"; "location"; "change"; "probes_left"; "probes_right"]%string,
+   map brow_cells (stable_sort bkey_ge (breaks_unsorted min_probes rows segs))).
+Proof. exact do_breaks_table_spec. Qed.
+
+Theorem C16_break_key : forall x y, bkey_ge x y = true <-> break_key_ge x y.
+Proof. exact bkey_ge_iff. Qed.
+
+(* ---- squash_genes: every field ------------------------------------------------------------------------------------ *)
+
+(* For a table whose columns are in the order the code assumes (chromosome, start, end, gene, log2,
+   depth, weight[, probes]) and ANY summary function: the complete output keeps the header and is,
+   group by group of by_gene (C16_partition / C16_by_gene_general), the rows squash_rows_of: an
+   Antitarget / Background stretch kept bin by bin (one summary row when squash_antitarget); a group of
+   one bin kept as it is, with its own name; a group of two or more bins one row -- first bin's
+   chromosome and start, last bin's end, the gene, the summary function of the bins' log2, of their
+   depth and of their WEIGHT (not the sum), the sum of probes.  Bins with ignored names inside a gene
+   belong to the gene's group and are summarised with it. *)
+Theorem C16_squash_rows : forall est has_probes ignore squash_antitarget rows,
+  squash_genes_full est (squash_columns has_probes) ignore squash_antitarget rows =
+  Some (squash_columns has_probes,
+        flat_map (squash_rows_of est has_probes squash_antitarget) (by_gene ignore rows)).
+Proof. exact squash_genes_full_spec. Qed.
+
+(* For every summary function meeting the contract "within [min, max] of its input" (the default,
+   biweight location: C19_biloc_range) the three summarised values of a squashed row lie within the
+   range of the group's bins. *)
+Theorem C16_squash_values_in_range : forall est, est_within est ->
+  forall has_probes label first t,
+  let own := first :: t in
+  exists lg dp wt,
+    squashed_row est has_probes label own =
+      [CS (b_chr first); CZ (b_start first); CZ (b_end (last own first)); CS label;
+       CQ (Some lg); CQ (Some dp); CQ (Some wt)]
+      ++ (if has_probes then [CZ (sumZ (map b_probes own))] else []) /\
+    lg = est (map b_log2 own) /\ dp = est (map b_depth own) /\ wt = est (map b_weight own) /\
+    (qmin (map b_log2 own) <= lg <= qmax (map b_log2 own))%Q /\
+    (qmin (map b_depth own) <= dp <= qmax (map b_depth own))%Q /\
+    (qmin (map b_weight own) <= wt <= qmax (map b_weight own))%Q.
+Proof. exact squashed_row_fields. Qed.
+
+(* one row per gene of two or more bins, with the gene's coordinates *)
+Theorem C16_squash_gene_row : forall est has_probes squash_antitarget ignore rows g f l,
+  real (full_ignore ignore) g -> gene_span rows g f l -> (f < l)%nat ->
+  exists first,
+    nth_error rows f = Some first /\
+    squash_rows_of est has_probes squash_antitarget (g, slice rows f (S l)) =
+      [squashed_row est has_probes g (slice rows f (S l))] /\
+    exists t, slice rows f (S l) = first :: t /\ t <> [].
+Proof. exact squash_gene_row_full. Qed.
+
+(* the contract is met by C19's biweight location *)
+Example C16_squash_oracle_inhabited : est_within (fun a => Descriptives.biweight_location_core a None).
+Proof. exact DescriptivesBiweight.biweight_location_core_range. Qed.
+
+(* The rows are assembled positionally (as_rows under the table's own header): with another column
+   order the values land under other names -- .cns order (..., depth, probes, weight): the probes
+   column receives the summary of weight and the weight column the sum of probes.  Coordinates and
+   gene are not affected (the property speaks of those). *)
+Example C16_example_squash_positional :
+  squash_genes_full (fun l => hd 0%Q l)
+    ["chromosome"; "start"; "end"; "gene"; "log2"; "depth"; "probes"; "weight"]%string
+    IGNORE_GENE_NAMES false [ex_bin "chr1" "A" 0; ex_bin "chr1" "A" 1] =
+  Some (["chromosome"; "start"; "end"; "gene"; "log2"; "depth"; "probes"; "weight"]%string,
+        [[CS "chr1"; CZ 0; CZ 180; CS "A"; CQ (Some (1 # 2)); CQ (Some 10%Q); CQ (Some 1%Q); CZ 2]]).
+Proof. vm_compute. reflexivity. Qed.
+
+(* ---- source ties (function bodies translated from /repo on every run) -------------------------------------------- *)
+
+(* cnvlib/segmetrics.py segment_mean = the model's segment_mean *)
+Theorem C16_source_segment_mean : forall (skip_low : bool) rows,
+  let r := if skip_low then drop_low rows else rows in
+  segment_mean skip_low rows =
+  fn_segment_mean (Z.of_nat (length r)) true
+                  (existsb (fun b => negb (Qeq_bool (b_weight b) 0)) r) None
+                  (wavg (map b_log2 r) (map b_weight r)) (meanQ (map b_log2 r)).
+Proof. exact fn_segment_mean_eq. Qed.
+
+(* cnvlib/reports.py do_genemetrics: the probe count filtered on = the model's n_probes *)
+Theorem C16_source_n_probes : forall r,
+  n_probes r =
+  fn_n_probes (match r_segp r with Some _ => true | None => false end)
+              (match r_segp r with Some p => p | None => 0 end) (r_probes r).
+Proof. exact fn_n_probes_eq. Qed.
+
+(* ---- examples ---------------------------------------------------------------------------------------------------------- *)
+
+Example C16_example_full_table :
+  do_genemetrics_full (fun _ => 0%Q) ["chromosome"; "start"; "end"; "gene"; "log2"; "depth"; "weight"]%string
+    (ex_chr1 ++ ex_chr2) None (mkOpts (1 # 5) 3 false false (Some true) None) =
+  Some (["gene"; "chromosome"; "start"; "end"; "log2"; "depth"; "weight"; "probes"]%string,
+        [[CS "A"; CS "chr1"; CZ 0; CZ 280; CQ (Some (1 # 2)); CQ (Some 10%Q); CQ (Some 3%Q); CZ 3];
+         [CS "B"; CS "chr1"; CZ 500; CZ 780; CQ (Some (1 # 2)); CQ (Some 10%Q); CQ (Some 3%Q); CZ 3]]).
+Proof. vm_compute. reflexivity. Qed.
